@@ -150,12 +150,17 @@ def main(argv):
         monitors.attach()
     mod = load_check(cid)
     ctx = ShardContext(mod, spec)
+    gc.collect()
+    gc.freeze()  # imported modules (numpy, matplotlib, ...) never become garbage: keep them out of every later collection
     t_flush = time.time()
     for i, case in enumerate(mod.cases(spec, ctx)):
         ctx.case_index = i
         ctx.run_case(case)
-        if i % 50 == 49:
+        if i % 25 == 24:
+            # the library keeps every expression alive (global graph, lru caches): move the survivors out of the
+            # collector's view so that gc.collect() in the workloads stays cheap
             gc.collect()
+            gc.freeze()
         if time.time() - t_flush > 30:
             t_flush = time.time()
             with open(out_path + ".partial.tmp", "w") as f:
